@@ -372,6 +372,16 @@ func (rc *raftNode) startRaft(ds DataStorage, standalone bool) error {
 			RaftReplicaId: uint64(rc.config.ID)},
 	}
 
+	if oldwal && isUnusedWAL(walDir) {
+		// the process died after creating the wal and before the bootstrap entries were saved:
+		// restarting from it would give a raft node without any peer that can never elect a leader.
+		// Nothing was persisted, so this still is the first start.
+		rc.Infof("wal %v holds no raft state, starting as a new node", walDir)
+		if err := os.RemoveAll(walDir); err != nil {
+			return err
+		}
+		oldwal = false
+	}
 	if oldwal {
 		// Find a snapshot to start/restart a raft node
 		walSnaps, err := wal.ValidSnapshotEntries(walDir)
@@ -467,6 +477,21 @@ func (rc *raftNode) startRaft(ds DataStorage, standalone bool) error {
 		rc.serveChannels()
 	}()
 	return nil
+}
+
+// isUnusedWAL reports whether the wal was created but never received an entry or a hard state
+// (only the header written by wal.Create, or snapshot records that no hard state makes valid).
+func isUnusedWAL(walDir string) bool {
+	w, err := wal.OpenForRead(walDir, walpb.Snapshot{})
+	if err != nil {
+		return false
+	}
+	defer w.Close()
+	_, st, ents, err := w.ReadAll()
+	if err != nil {
+		return false
+	}
+	return raft.IsEmptyHardState(st) && len(ents) == 0
 }
 
 func (rc *raftNode) initForTransport() {
